@@ -650,9 +650,15 @@ func checkRunsWhole(c *Ctx, r *Report) {
 								}
 							}
 						}
+						// stale content must be overwritten: what an earlier call on the same slice left behind - full
+						// counters after a success, leading counts and trailing zeros after a row that ended early
 						counters := &Val{K: VList, Local: true}
 						for k := 0; k < nc; k++ {
-							counters.L = append(counters.L, vint(7)) // stale content must be overwritten
+							stale := int64(7)
+							if (start+len(row))%2 == 1 && k >= (nc+1)/2 {
+								stale = 0
+							}
+							counters.L = append(counters.L, vint(stale))
 						}
 						outside := false
 						h := &rpf{unroll: 64, callHook: func(rr *rpf, call *ast.CallExpr, callee types.Object) (*Val, bool) {
